@@ -28,7 +28,8 @@ C02_OPS = ["add", "sub", "mul", "div", "sqrt", "neg", "abs", "copysign", "bitofs
            "is_even", "is_odd", "sign", "signnz"]
 C08_OPS = ["ceil", "floor", "trunc", "round", "nearbyint", "rint", "nearbyint_as_int"]
 
-C04_OPS = ["load_aligned", "load_unaligned", "store_aligned", "store_unaligned", "broadcast"]
+C04_OPS = ["load_aligned", "load_unaligned", "store_aligned", "store_unaligned", "broadcast", "bool_load_aligned", "bool_load_unaligned",
+           "bool_store_aligned", "bool_store_unaligned"]
 
 C06_OPS = [o for o in entries.OPS if o.startswith("batch_cast_to_") or o.startswith("bitwise_cast_to_")] + ["to_int", "to_float"]
 
